@@ -437,6 +437,30 @@ theorem applyEntries_keys (o : Opts) (fn : Fn V) (pre : Path) : ∀ (es : Entrie
         simp only [hrest] at h; injection h with h; subst h
         simp [Entries.keys, applyEntries_keys o fn pre rest others out rs hrest]
 
+theorem moveToDevice_leaf (d : Option String) (v : V) : moveToDevice d (Tree.leaf v) = Tree.leaf v := by
+  cases d <;> rfl
+
+theorem reconcileNames_spec (rm rm' : Meta) (t t' : Tree V) (h : reconcileNames rm t = .ok (rm', t')) :
+    rm'.batch = rm.batch ∧ rm'.device = rm.device ∧ rm'.locked = rm.locked ∧
+    (∀ v, t = .leaf v → rm' = rm ∧ t' = t) ∧ (t' = t ∨ ∃ ns, t' = Tree.renameAll ns t) := by
+  unfold reconcileNames at h
+  cases t with
+  | leaf v => simp at h; obtain ⟨e1, e2⟩ := h; subst e1; subst e2; simp
+  | node tm tes =>
+    simp only at h
+    split at h
+    · injection h with h; injection h with e1 e2; subst e1; subst e2; simp
+    · split at h
+      · split at h
+        · injection h with h; injection h with e1 e2; subst e1; subst e2; simp
+        · split at h
+          · injection h with h; injection h with e1 e2; subst e1; subst e2
+            exact ⟨rfl, rfl, rfl, by simp, Or.inr ⟨_, rfl⟩⟩
+          · cases h
+      · split at h
+        · injection h with h; injection h with e1 e2; subst e1; subst e2; simp
+        · injection h with h; injection h with e1 e2; subst e1; subst e2; simp
+
 theorem validateValue_spec (checked : Bool) (rm rm' : Meta) (t t' : Tree V)
     (h : validateValue checked rm t = .ok (rm', t')) :
     rm'.batch = rm.batch ∧ rm'.device = rm.device ∧ rm'.locked = rm.locked ∧
@@ -446,21 +470,11 @@ theorem validateValue_spec (checked : Bool) (rm rm' : Meta) (t t' : Tree V)
   | true => simp at h; obtain ⟨e1, e2⟩ := h; subst e1; subst e2; simp
   | false =>
     simp only [Bool.false_eq_true, ↓reduceIte] at h
-    cases t with
-    | leaf v => simp at h; obtain ⟨e1, e2⟩ := h; subst e1; subst e2; simp
-    | node tm tes =>
-      simp only at h
-      split at h
-      · injection h with h; injection h with e1 e2; subst e1; simp
-      · split at h
-        · split at h
-          · injection h with h; injection h with e1 e2; subst e1; simp
-          · split at h
-            · injection h with h; injection h with e1 e2; subst e1; simp
-            · cases h
-        · split at h
-          · injection h with h; injection h with e1 e2; subst e1; simp
-          · injection h with h; injection h with e1 e2; subst e1; simp
+    obtain ⟨h1, h2, h3, h4, _⟩ := reconcileNames_spec rm rm' _ t' h
+    refine ⟨h1, h2, h3, by simp, fun v hv => ?_⟩
+    subst hv
+    rw [moveToDevice_leaf] at h4
+    exact h4 v rfl
 
 /-- writing outcomes never changes batch size, device or lock flag of the container; with `checked` it does not
 touch the names either -/
@@ -832,6 +846,176 @@ theorem applyNode_none (o : Opts) (fn : Fn V) (pre : Path) (m : Meta) (es : Entr
       cases hset : anySet oc with
       | false => rfl
       | true => simp [hset] at h
+
+
+/-! ### same leaves up to node metadata -/
+
+/-- the leaf stored under a nested key, if any -/
+def Tree.leafAt (t : Tree V) (p : Path) : Option V :=
+  match Tree.sub t p with
+  | some (.leaf v) => some v
+  | _ => none
+
+/-- two optional trees hold the same leaves under every nested key (they may differ in node metadata) -/
+def LeafEq (a b : Option (Tree V)) : Prop := ∀ p, a.bind (fun t => Tree.leafAt t p) = b.bind (fun t => Tree.leafAt t p)
+
+theorem LeafEq.refl (a : Option (Tree V)) : LeafEq a a := fun _ => rfl
+theorem LeafEq.trans {a b c : Option (Tree V)} (h1 : LeafEq a b) (h2 : LeafEq b c) : LeafEq a c :=
+  fun p => (h1 p).trans (h2 p)
+theorem LeafEq.symm {a b : Option (Tree V)} (h : LeafEq a b) : LeafEq b a := fun p => (h p).symm
+
+theorem get?_renameAll (ns : Option (List String)) : ∀ (es : Entries V) (k : String),
+    (Entries.renameAll ns es).get? k = (es.get? k).map (Tree.renameAll ns)
+  | .nil, k => by simp [Entries.renameAll, Entries.get?]
+  | .cons k0 t rest, k => by
+    simp only [Entries.renameAll, Entries.get?]
+    by_cases hk : k0 = k
+    · simp [hk]
+    · simp only [hk, ↓reduceIte]; exact get?_renameAll ns rest k
+
+theorem get?_setDevice (d : Option String) : ∀ (es : Entries V) (k : String),
+    (Entries.setDevice d es).get? k = (es.get? k).map (Tree.setDevice d)
+  | .nil, k => by simp [Entries.setDevice, Entries.get?]
+  | .cons k0 t rest, k => by
+    simp only [Entries.setDevice, Entries.get?]
+    by_cases hk : k0 = k
+    · simp [hk]
+    · simp only [hk, ↓reduceIte]; exact get?_setDevice d rest k
+
+theorem sub_renameAll (ns : Option (List String)) : ∀ (p : Path) (t : Tree V),
+    Tree.sub (Tree.renameAll ns t) p = (Tree.sub t p).map (Tree.renameAll ns)
+  | [], t => by simp [Tree.sub]
+  | k :: p, .leaf v => by simp [Tree.sub, Tree.renameAll]
+  | k :: p, .node m es => by
+    simp only [Tree.renameAll, Tree.sub, get?_renameAll]
+    cases es.get? k with
+    | none => rfl
+    | some t => simp [sub_renameAll ns p t]
+
+theorem sub_setDevice (d : Option String) : ∀ (p : Path) (t : Tree V),
+    Tree.sub (Tree.setDevice d t) p = (Tree.sub t p).map (Tree.setDevice d)
+  | [], t => by simp [Tree.sub]
+  | k :: p, .leaf v => by simp [Tree.sub, Tree.setDevice]
+  | k :: p, .node m es => by
+    simp only [Tree.setDevice, Tree.sub, get?_setDevice]
+    cases es.get? k with
+    | none => rfl
+    | some t => simp [sub_setDevice d p t]
+
+theorem leafAt_renameAll (ns : Option (List String)) (t : Tree V) (p : Path) :
+    Tree.leafAt (Tree.renameAll ns t) p = Tree.leafAt t p := by
+  unfold Tree.leafAt
+  rw [sub_renameAll]
+  cases h : Tree.sub t p with
+  | none => rfl
+  | some x => cases x <;> simp [Tree.renameAll]
+
+theorem leafAt_setDevice (d : Option String) (t : Tree V) (p : Path) :
+    Tree.leafAt (Tree.setDevice d t) p = Tree.leafAt t p := by
+  unfold Tree.leafAt
+  rw [sub_setDevice]
+  cases h : Tree.sub t p with
+  | none => rfl
+  | some x => cases x <;> simp [Tree.setDevice]
+
+theorem leafAt_moveToDevice (d : Option String) (t : Tree V) (p : Path) :
+    Tree.leafAt (moveToDevice d t) p = Tree.leafAt t p := by
+  unfold moveToDevice
+  cases d with
+  | none => rfl
+  | some dev =>
+    cases t with
+    | leaf v => rfl
+    | node tm tes =>
+      simp only
+      split
+      · rfl
+      · exact leafAt_setDevice _ _ p
+
+/-- `_validate_value` never changes a leaf: the stored value holds the same leaves as the value passed -/
+theorem validateValue_leafEq (checked : Bool) (rm rm' : Meta) (t t' : Tree V)
+    (h : validateValue checked rm t = .ok (rm', t')) : LeafEq (some t') (some t) := by
+  intro p
+  simp only [Option.bind_some]
+  unfold validateValue at h
+  cases checked with
+  | true => simp at h; rw [h.2]
+  | false =>
+    simp only [Bool.false_eq_true, ↓reduceIte] at h
+    obtain ⟨_, _, _, _, h5⟩ := reconcileNames_spec rm rm' _ t' h
+    rcases h5 with e | ⟨ns, e⟩
+    · rw [e, leafAt_moveToDevice]
+    · rw [e, leafAt_renameAll, leafAt_moveToDevice]
+
+theorem pickOutcome_leafEq (x : Option (Option (Tree V))) (a b : Option (Tree V)) (h : LeafEq a b) :
+    LeafEq (pickOutcome x a) (pickOutcome x b) := by
+  cases x with
+  | none => simpa using h
+  | some y => cases y with
+    | none => simpa using h
+    | some t => simp only [pickOutcome_some_some]; exact LeafEq.refl _
+
+theorem leafEq_map_renameAll (ns : Option (List String)) (a : Option (Tree V)) :
+    LeafEq (a.map (Tree.renameAll ns)) a := by
+  intro p
+  cases a with
+  | none => rfl
+  | some t => simp [leafAt_renameAll]
+
+/-- entries written (validated or not): under every key the container holds the same leaves as the outcome when the
+function returned a value, else the same leaves as before -/
+theorem writeOutcomes_leafEq (checked : Bool) (fresh : Tree V) :
+    ∀ (oc : List (String × Option (Tree V))) (m : Meta) (es : Entries V) (r : Option (Tree V)),
+      (oc.map (·.1)).Nodup → writeOutcomes checked fresh (some (.node m es)) oc = .ok r →
+      ∃ m' es', r = some (.node m' es') ∧
+        ∀ k, LeafEq (es'.get? k) (pickOutcome (List.lookup k oc) (es.get? k))
+  | [], m, es, r, _, h => by
+    simp [writeOutcomes] at h; subst h; exact ⟨m, es, rfl, fun k => by simp [List.lookup]; exact LeafEq.refl _⟩
+  | (k0, none) :: rest, m, es, r, hnd, h => by
+    simp only [writeOutcomes] at h
+    simp only [List.map_cons, List.nodup_cons] at hnd
+    obtain ⟨m', es', e, hg⟩ := writeOutcomes_leafEq checked fresh rest m es r hnd.2 h
+    refine ⟨m', es', e, fun k => ?_⟩
+    by_cases hk : k = k0
+    · subst hk
+      have hl : List.lookup k rest = none := lookup_none_of_not_key rest k hnd.1
+      have := hg k
+      rw [hl] at this
+      simpa [List.lookup] using this
+    · have : (k == k0) = false := by simp [hk]
+      simpa [List.lookup, this] using hg k
+  | (k0, some t) :: rest, m, es, r, hnd, h => by
+    simp only [writeOutcomes, Option.getD_some] at h
+    simp only [List.map_cons, List.nodup_cons] at hnd
+    cases hv : validateValue checked m t with
+    | error e => simp [hv] at h
+    | ok pr =>
+      obtain ⟨m1, t1⟩ := pr
+      simp only [hv] at h
+      have ht := validateValue_leafEq checked m m1 t t1 hv
+      obtain ⟨m', es', e, hg⟩ := writeOutcomes_leafEq checked fresh rest m1 _ r hnd.2 h
+      refine ⟨m', es', e, fun k => ?_⟩
+      by_cases hk : k = k0
+      · subst hk
+        have hl : List.lookup k rest = none := lookup_none_of_not_key rest k hnd.1
+        have := hg k
+        rw [hl, get?_set_same] at this
+        simp only [List.lookup, beq_self_eq_true, pickOutcome_some_some, pickOutcome_none] at this ⊢
+        exact this.trans ht
+      · have hb : (k == k0) = false := by simp [hk]
+        have := hg k
+        rw [get?_set_other _ k0 k t1 hk] at this
+        simp only [List.lookup, hb]
+        refine this.trans (pickOutcome_leafEq _ _ _ ?_)
+        split
+        · exact LeafEq.refl _
+        · rw [get?_renameAll]; exact leafEq_map_renameAll _ _
+
+theorem leafAt_node_cons (m : Meta) (es : Entries V) (k : String) (q : Path) :
+    Tree.leafAt (.node m es) (k :: q) = (es.get? k).bind (fun t => Tree.leafAt t q) := by
+  unfold Tree.leafAt
+  simp only [Tree.sub]
+  cases es.get? k <;> rfl
 
 
 end TdVerif.C20
